@@ -741,8 +741,85 @@ func runC05(r *harness.Run) {
 	})
 	_ = nw
 	// F-errval: error values of every type through the reference interpreter
-	pr := &progRunner{r: r, prop: "C05", opts: lua.Options{}}
-	pr.runGens(map[string]Gen{"F-errval": genErrVal(th)}, []string{"F-errval"})
+	// ... and errors raised while a coroutine's value stack is exhausted, errors below call
+	// boundaries inside coroutines, and Go functions as coroutine bodies (incl. error itself)
+	pr := c03Runner(r)
+	pr.prop = "C05"
+	pr.runGens(map[string]Gen{"F-errval": genErrVal(th), "F-cooverflow": genCoOverflow(), "F-yieldacross": genYieldAcross(), "F-hostbody": genHostBody()}, []string{"F-errval", "F-cooverflow", "F-yieldacross", "F-hostbody"})
+	c05GoResume(r)
+}
+
+// c05GoResume — the Go-side Resume as a protected entry point: a coroutine that fails (error value
+// of several types, fault, stack exhaustion) under LState.Resume reports (ResumeError, err) and
+// leaves the resumer's value stack exactly as it was, inside a host function as well as at top level.
+func c05GoResume(r *harness.Run) {
+	bodies := []struct{ name, src string }{
+		{"error-string", `return function() error("boom") end`},
+		{"error-table", `return function() error({code = 7}) end`},
+		{"error-nil", `return function() error() end`},
+		{"fault", `return function() local x = nil + 1 end`},
+		{"after-yield", `return function() coroutine.yield(1) error("later") end`},
+		{"registry-overflow", `local big = {} for i = 1, 10000 do big[i] = i end return function() return select("#", unpack(big)) end`},
+		{"stack-overflow", `local function r() return 1 + r() end return r`},
+		{"ok", `return function(a) coroutine.yield(a) return "done" end`},
+	}
+	for _, b := range bodies {
+		for _, where := range []string{"top-level", "in-host-function"} {
+			L := lua.NewState()
+			if err := L.DoString(b.src); err != nil {
+				harness.Fatal("c05GoResume: %v", err)
+			}
+			fn := L.Get(-1).(*lua.LFunction)
+			L.SetTop(0)
+			var problems []string
+			drive := func(L *lua.LState) {
+				co, _ := L.NewThread()
+				L.Push(lua.LString("sentinel-1"))
+				L.Push(lua.LNumber(2))
+				for i := 0; i < 3; i++ {
+					before := L.GetTop()
+					st, err, vals := L.Resume(co, fn, lua.LNumber(5))
+					if after := L.GetTop(); after != before {
+						problems = append(problems, fmt.Sprintf("resume #%d (state %v, err %v, %d values): the resumer's stack height went from %d to %d", i+1, st, err != nil, len(vals), before, after))
+						L.SetTop(before)
+					}
+					if L.Get(-2) != lua.LString("sentinel-1") || L.Get(-1) != lua.LNumber(2) {
+						problems = append(problems, fmt.Sprintf("resume #%d: the values below the call were disturbed", i+1))
+					}
+					if st == lua.ResumeError && err == nil {
+						problems = append(problems, "ResumeError without an error")
+					}
+					if st != lua.ResumeYield {
+						break
+					}
+				}
+				L.Pop(2)
+			}
+			func() {
+				defer func() {
+					if rec := recover(); rec != nil {
+						problems = append(problems, fmt.Sprintf("Go panic escaped LState.Resume: %v", rec))
+					}
+				}()
+				if where == "top-level" {
+					drive(L)
+				} else {
+					L.Push(L.NewFunction(func(L *lua.LState) int { drive(L); return 0 }))
+					if err := L.PCall(0, 0, nil); err != nil {
+						problems = append(problems, "host function failed: "+err.Error())
+					}
+				}
+			}()
+			sig := "goresume/" + b.name + "/" + where
+			r.Eval(sig, true, func() interface{} {
+				return map[string]interface{}{"case": "Go-side Resume", "body": b.name, "where": where}
+			})
+			if len(problems) > 0 {
+				r.Violation(sig, strings.Join(problems, "; "), map[string]interface{}{"body": b.src, "where": where})
+			}
+			L.Close()
+		}
+	}
 }
 
 func stripAt(base, like []c05Ev) []c05Ev {
